@@ -545,6 +545,7 @@ package multiplex
 //@   ensures drained: err == nil && !toBeClosed ==> !pending(sb, sb.nextRecvSeq)
 //@   ensures closingIsClosing: toBeClosed ==> fclosing(sb.nextRecvSeq)
 //@   ensures closingInTurn: toBeClosed ==> f.Seq == sb.nextRecvSeq || wasPending(sb, sb.nextRecvSeq)
+//@   ensures onlyStaleRefused: err != nil ==> f.Seq < acq(sb.nextRecvSeq)
 //@   ensures staleRefused: f.Seq < acq(sb.nextRecvSeq) ==> err != nil && sb.nextRecvSeq == acq(sb.nextRecvSeq)
 //@   ensures locks: holdsNone()
 //@   flag noframe
